@@ -14,16 +14,24 @@ EXTENDS Api
 
 Trace == ndJsonDeserialize(IOEnv.VERIF_TRACE)
 
-VARIABLES l, cur, ndev
-traceVars == <<l, cur, ndev, used, cfg, ncalls>>
+VARIABLES l, cur, ndev, deep, rej
+traceVars == <<l, cur, ndev, deep, rej, used, cfg, ncalls>>
 
-TraceInit == TLCSet(1, <<>>) /\ ApiInit /\ l = 1 /\ cur = [vals |-> <<>>, prop |-> ""] /\ ndev = 0
+TraceInit == TLCSet(1, <<>>) /\ ApiInit /\ l = 1 /\ cur = [vals |-> <<>>, prop |-> ""] /\ ndev = 0 /\ deep = <<>> /\ rej = <<>>
 
 Line == Trace[l]
 IsEvent(e) == l <= Len(Trace) /\ Line.ev = e
 
 \* the value argument of a Size / Encode line: inline (a previously decoded object) or by index
 ValOf == IF "val" \in DOMAIN Line THEN Line.val ELSE cur.vals[Line.v + 1]
+
+\* per (type, pattern): deepest accepted and shallowest rejected repetition count so far
+DeepKey(ty, pattern) == ty \o "/" \o pattern
+DeepTrack(ty, pattern) ==
+  IF DeepKey(ty, pattern) \in DOMAIN deep THEN deep[DeepKey(ty, pattern)] ELSE [maxok |-> 0, minrej |-> -1]
+
+\* rejected calls seen so far in the whole trace: (type, entry, argument kind) -> outcome
+RejKey == Line.ty \o "/" \o Line.entry \o "/" \o Line.arg
 
 \* judgement of the current line: violated clauses and the class of the case (for coverage
 \* statistics); never looks at used / cfg / ncalls
@@ -40,11 +48,14 @@ Judge ==
                [j EXCEPT !.fail = @ \cup (IF Line.orig >= 0
                                            THEN FailRoundTrip(Line.ty, cur.vals[Line.orig + 1], Line.in, Line.obs)
                                            ELSE {})])
+    [] Line.ev = "Deep" -> JDeep(Line, DeepTrack(Line.ty, Line.pattern))
+    [] Line.ev = "Reject" -> JReject(Line, IF RejKey \in DOMAIN rej THEN rej[RejKey] ELSE "")
     [] OTHER -> [fail |-> {}, cls |-> "other"]
 
 \* where the observed value departs from the expected one (diagnostic text only)
 Why(v) ==
   IF Line.obs.out \in {"crash", "timeout", "panic"} THEN <<Line.obs.out>>
+  ELSE IF Line.ev = "Deep" THEN <<Line.pattern, ToString(Line.d), ToString(Line.levels), Line.obs.out>>
   ELSE IF Line.ev = "Decode" /\ Len(Line.in) > 2000 THEN <<"(large value: no diff computed)">>
   ELSE IF Line.ev = "Decode" /\ Line.obs.out = "ok" /\ "rt_val" \in v
   THEN <<"rt">> \o DiffStruct(Line.ty, Line.obs.val, NormS(Line.ty, cur.vals[Line.orig + 1]))
@@ -71,11 +82,19 @@ TraceScenario ==
   /\ IsEvent("Scenario")
   /\ cur' = [vals |-> Line.vals, prop |-> Line.prop]
   /\ l' = l + 1
-  /\ UNCHANGED <<ndev, used, cfg, ncalls>>
+  /\ deep' = <<>>      \* thresholds are tracked per scenario
+  /\ UNCHANGED <<ndev, rej, used, cfg, ncalls>>
 
 \* a call whose observed outcome the specification allows
 TraceCall ==
-  /\ l <= Len(Trace) /\ Line.ev \in {"Size", "Encode", "Decode"}
+  /\ l <= Len(Trace) /\ Line.ev \in {"Size", "Encode", "Decode", "Deep", "Reject"}
+  /\ rej' = IF Line.ev = "Reject" /\ Line.obs.out # "crash" THEN (RejKey :> RejSig(Line.obs)) @@ rej ELSE rej
+  /\ deep' = IF Line.ev # "Deep" THEN deep
+             ELSE LET t == DeepTrack(Line.ty, Line.pattern)
+                      nt == IF Line.obs.out = "ok"
+                            THEN [t EXCEPT !.maxok = IF Line.d > @ THEN Line.d ELSE @]
+                            ELSE [t EXCEPT !.minrej = IF @ < 0 \/ Line.d < @ THEN Line.d ELSE @]
+                  IN (DeepKey(Line.ty, Line.pattern) :> nt) @@ deep
   /\ LET j == Judge
          v == j.fail IN
      /\ IF v = {} THEN ndev' = ndev ELSE Report(v) /\ ndev' = ndev + 1
@@ -86,9 +105,9 @@ TraceCall ==
 
 \* lines that carry no obligation (GC, skipped steps, end marker)
 TraceOther ==
-  /\ l <= Len(Trace) /\ Line.ev \notin {"Scenario", "Size", "Encode", "Decode"}
+  /\ l <= Len(Trace) /\ Line.ev \notin {"Scenario", "Size", "Encode", "Decode", "Deep", "Reject"}
   /\ l' = l + 1
-  /\ UNCHANGED <<cur, ndev, used, cfg, ncalls>>
+  /\ UNCHANGED <<cur, ndev, deep, rej, used, cfg, ncalls>>
 
 TraceNext == TraceScenario \/ TraceCall \/ TraceOther
 
